@@ -303,6 +303,39 @@ func runC11(cs CaseSpec) *CaseResult {
 		}
 		res.count("crash_events_created_after_restart", int64(own))
 	}
+	if !nw.stopped && cs.I("second", 0) == 1 {
+		// second life ends too (process killed between two steps): everything the
+		// node held and delivered after its first bootstrap must survive as well
+		pre2 := append([]*Delivered{}, v.App.Delivered...)
+		held := map[string]bool{}
+		st := v.Core.Hg().Store
+		for pk := range st.RepertoireByPubKey() {
+			evs, _ := st.ParticipantEvents(pk, -1)
+			for _, h := range evs {
+				held[h] = true
+			}
+		}
+		v.peersAtCrash = clonePeers(v.Core.Peers().Peers)
+		func() {
+			defer func() { recover() }()
+			st.Close()
+		}()
+		v.Up = false
+		v.StoreClosed = true
+		res.count("crash_second_stops_after_a_bootstrap", 1)
+		if !verifyRecovery(nw, v, pre2, held, held, "a second stop, after a first crash and bootstrap ("+crashedAt+")") {
+			return res
+		}
+		forks2 := len(nw.Rec.Forks)
+		nw.RunSchedule(ScheduleSpec{Steps: 60, Shape: "uniform", SubmitProb: 0.5, TxKinds: 2})
+		if !nw.stopped {
+			nw.FairCycles(20)
+		}
+		if !nw.stopped && len(nw.Rec.Forks) > forks2 {
+			nw.violate("C11", "C11:self-fork-after-restart", "after its second restart the node created a second event at a height it had already used: "+nw.Rec.Forks[len(nw.Rec.Forks)-1], map[string]interface{}{"crash_point": crashedAt})
+			return res
+		}
+	}
 	res.Evaluations = int64(nw.Step)
 	res.digest("c11", cs.Seed, cs.Index, crashedAt, cst.calls)
 	res.Sample = map[string]interface{}{"kind": "in-process crash point", "n": n, "crash_at_store_call": cst.crashAt, "operation": crashedAt, "blocks_before_crash": len(pre), "blocks_after_continuation": len(v.App.Delivered), "events_written_before_crash": len(cst.completed)}
@@ -573,6 +606,9 @@ func init() {
 				}
 				if i%18 == 17 {
 					c.P["clean"] = 1
+				}
+				if i%4 == 1 {
+					c.P["second"] = 1
 				}
 				cs = append(cs, c)
 			}
